@@ -26,7 +26,7 @@ def body(ctx):
 
 def check(ctx):
     ctx.assumptions = [
-        "special names (self, _G, shared, type, typeof, Roact, React, game, script, workspace, _, _ENV, arg, pairs, ipairs, next) are never renamed",
+        "special names (self, _G, shared, type, typeof, Roact, React, game, script, workspace, _, _ENV, arg, pairs, ipairs, next; field names ref, key, children) and spellings of the library's class table are never renamed",
         "the full renaming-simulation theorem over the scope model is pending; the Lean file proves the lookup/declare commutation lemmas it rests on",
     ]
     return vlib.standard_check(ctx, ["Selene.Props.C14"], body,
